@@ -249,8 +249,17 @@ def o7(tier):
     return r
 
 
+def o8(tier):
+    """a processed invitation is found again under its id, whatever state it is in"""
+    from props import C10
+    r = C10.o3(tier)
+    r.oid = 'O8'
+    r.title = 'SQLite (shared with C10-O3): find_welcome_by_event_id / find_processed_welcome_by_event_id select by exactly their key (no state filter), so a re-delivered invitation that was already accepted or declined returns the stored welcome'
+    return r
+
+
 def run(tier, seed, only=None):
-    obs = [('O1', o1), ('O2', o2), ('O3', o3), ('O4', o4), ('O5', o5), ('O6', o6), ('O7', o7)]
+    obs = [('O1', o1), ('O2', o2), ('O3', o3), ('O4', o4), ('O5', o5), ('O6', o6), ('O7', o7), ('O8', o8)]
     out = []
     for k, f in obs:
         if only and k not in only:
